@@ -6,6 +6,7 @@ import (
 	"math/rand/v2"
 	"strconv"
 	"strings"
+	"unicode/utf8"
 )
 
 // Profile steers the random generator.
@@ -35,7 +36,7 @@ type Profile struct {
 	NoRedundantPar                                                                                 bool
 	PoryKeys                                                                                       []string
 	TextPool                                                                                       []string
-	MultiTokenCases                                                                                bool
+	SingleTokenOperands, MultiTokenCases                                                                                bool
 	PFallback                                                                                      float64 // probability that a poryswitch has a `_` case (default 0.5)
 	WCondGoto                                                                                      int     // weight of user-written goto_if_set/goto_if_unset commands (targets: labels of the same script)
 	PRepeatAuto                                                                                    float64 // probability that an AutoVar leaf repeats the previous AutoVar command verbatim
@@ -79,7 +80,7 @@ func NewGen(r *rand.Rand, p Profile) *Gen {
 		p.MaxCases = 5
 	}
 	if len(p.TextPool) == 0 {
-		p.TextPool = []string{"Hello", "Bye now", "Hello", "A b c", "Prize!", "x"}
+		p.TextPool = []string{"Hello", "Bye now", "Hello", "A b c", "Prize!", "x", "Pok\uFFFDmon é"}
 	}
 	g := &Gen{R: r, P: p, Prog: &Program{AutoVars: map[string]AutoVar{}, Switches: map[string]string{}}, VarCands: map[int]bool{0: true, 1: true}}
 	return g
@@ -167,12 +168,31 @@ func (g *Gen) Text() *TextVal {
 	if g.chance(0.25) {
 		// split into two parts
 		k := 1 + g.R.IntN(len(s))
+		for k < len(s) && !utf8.RuneStart(s[k]) {
+			k++
+		}
 		if k < len(s) {
 			t.Parts = []string{s[:k], s[k:]}
 		}
 	}
 	if t.Parts == nil {
 		t.Parts = []string{s}
+	}
+	if g.chance(0.2) {
+		// more pieces than a layout usually has lines for: split every piece once more
+		var ps []string
+		for _, part := range t.Parts {
+			k := len(part) / 2
+			for k < len(part) && !utf8.RuneStart(part[k]) {
+				k++
+			}
+			if k > 0 && k < len(part) && part[k-1] != '\\' {
+				ps = append(ps, part[:k], part[k:])
+			} else {
+				ps = append(ps, part)
+			}
+		}
+		t.Parts = ps
 	}
 	if g.chance(g.P.PTyped) {
 		t.Type = []string{"ascii", "braille", "custom"}[g.R.IntN(3)]
@@ -290,6 +310,9 @@ var boolLits = []string{"true", "TRUE", "false", "FALSE"}
 var cmpOps = []string{"==", "!=", "<", "<=", ">", ">="}
 var valuePool = [][]string{{"0"}, {"1"}, {"2"}, {"5"}, {"0x10"}, {"-1"}, {"TIME_NIGHT"}, {"VAR_BASE", "+", "1"}, {"ITEM_COUNT"}, {"100"}}
 
+// rawValuePool: values only value( ... ) can hold (nested parentheses).
+var rawValuePool = [][]string{{"(", "1", "+", "2", ")", "*", "2"}, {"MAC_VAL", "(", "3", ")"}, {"(", "ITEM_A", ")"}, {"A_FLAGS", "|", "(", "B_FLAGS", "&", "3", ")"}}
+
 // LeafCond makes one leaf.
 func (g *Gen) LeafCond() *Leaf {
 	l := &Leaf{ID: g.Prog.NewID()}
@@ -301,6 +324,10 @@ func (g *Gen) LeafCond() *Leaf {
 		l.Operand = []string{g.Name("TRAINER_")}
 	case LeafVar:
 		l.Operand = []string{g.Name("VAR_")}
+	}
+	if !g.P.SingleTokenOperands && g.R.IntN(8) == 0 {
+		// an operand of several tokens (everything up to the closing parenthesis belongs to it)
+		l.Operand = append(l.Operand, []string{"+", "-", "*"}[g.R.IntN(3)], []string{"1", "0x10", "OFFSET_A"}[g.R.IntN(3)])
 	}
 	if l.Kind == LeafVar && g.chance(g.P.PAuto) {
 		l.Kind = LeafAuto
@@ -324,6 +351,9 @@ func (g *Gen) LeafCond() *Leaf {
 			l.Value = valuePool[g.R.IntN(len(valuePool))]
 			if g.chance(g.P.ValueFn) {
 				l.Raw = true
+				if g.R.IntN(4) == 0 {
+					l.Value = rawValuePool[g.R.IntN(len(rawValuePool))]
+				}
 			}
 		}
 	}
@@ -573,7 +603,10 @@ func (g *Gen) switchStmt(contOK bool) *Switch {
 		} else {
 			for {
 				var v []string
-				if g.P.MultiTokenCases && g.R.IntN(4) == 0 {
+				if g.P.MultiTokenCases && g.R.IntN(8) == 0 {
+					// a function-like macro with a comma inside its parentheses
+					v = []string{"MAC_ID", "(", []string{"COLOR_RED", "COLOR_BLUE", "2"}[g.R.IntN(3)], ",", strconv.Itoa(g.R.IntN(3)), ")"}
+				} else if g.P.MultiTokenCases && g.R.IntN(4) == 0 {
 					v = []string{g.Name("BASE_"), "+", strconv.Itoa(g.R.IntN(4))}
 				} else if g.R.IntN(4) == 0 {
 					v = []string{g.Name("CASE_")}
